@@ -28,6 +28,7 @@ def main(argv=None):
         return 2
     try:
         core.import_mido()
+        core.stir()
         if args.replay:
             with open(args.replay) as f:
                 body = json.load(f)
